@@ -563,6 +563,16 @@ def gen_yaml_client(r, names=None, env_seed=None):
     return spec
 
 
+def reorder_yaml_actions(spec):
+    """another legal edit of a YAML-built client: the configured action list in another order, actions then given as
+    indices into it.  Decided from the already drawn environment seed (no extra draw: the streams of every other
+    generator stay as they were) for one client in five."""
+    if spec.get('kind') == 'yaml' and spec['env_seed'] % 5 == 0:
+        spec.setdefault('yaml_edit', {})['reorder_actions'] = spec['env_seed'] // 5
+        spec['int_actions'] = True
+    return spec
+
+
 def simplify_world(world):
     """candidate simplifications of a free-form world (for minimisation)"""
     h, w = world['h'], world['w']
